@@ -239,13 +239,14 @@ def rule_scope(ctx) -> RuleResult:
 PERSISTING = {"save_entity", "save_entity_type", "update_attribute", "finalize", "add_or_update_property_group", "remove_entity", "remove_children"}
 
 
-def rule_load(ctx) -> RuleResult:
+def rule_load(ctx, rule_id="C19.LOAD", prop="C19") -> RuleResult:
     res = RuleResult(
-        "C19.LOAD",
-        "C19",
+        rule_id,
+        prop,
         "the load path (Workspace.open and every Workspace method it reaches through self.<method>) makes no "
         "persisting call: no save_entity / update_attribute / H5Writer call, and entities it constructs are created "
-        "with save_on_creation=False — opening a file (also one that lacks the Root link) needs no write access",
+        "with save_on_creation=False; constructors (which also run while loading) assign type attributes only "
+        "conditionally — opening a file (also one that lacks the Root link) needs no write access and writes nothing",
         floor=5,
     )
     p = ctx.p
@@ -289,6 +290,35 @@ def rule_load(ctx) -> RuleResult:
             res.find("Workspace", nm, f"persisting call on the load path: {what}", f"{fn.module.relpath}:{c.lineno}",
                      f"{what} runs while a file is being opened: opening in read-only mode (or a read-only fallback) fails or the file is "
                      "modified by merely opening it")
+    # constructors run on the load path too: the entity is not on file yet, but its (shared) TYPE is as soon as a first
+    # instance has been loaded — an unconditional assignment to a type attribute writes for every further instance
+    ent = p.cls("Entity")
+    for K in p.subclasses(ent):
+        init = K.methods.get("__init__")
+        if init is None or K.synthetic:
+            continue
+        sn = init.self_name or "self"
+
+        def walk(stmts, guarded):
+            for st in stmts:
+                if isinstance(st, ast.If):
+                    walk(st.body, True)
+                    walk(st.orelse, True)
+                elif isinstance(st, (ast.For, ast.While, ast.With, ast.Try)):
+                    for fld in ("body", "orelse", "finalbody"):
+                        walk(getattr(st, fld, []) or [], guarded)
+                    for h in getattr(st, "handlers", []):
+                        walk(h.body, guarded)
+                elif isinstance(st, ast.Assign):
+                    for t in st.targets:
+                        if isinstance(t, ast.Attribute) and unparse(t.value) == f"{sn}.entity_type" and not t.attr.startswith("_"):
+                            res.inst(f"{K.name}.__init__:{st.lineno} {unparse(t)} = ... conditional on the current state: {guarded}", nontrivial=True, ok=guarded)
+                            if not guarded:
+                                res.find(K.name, "__init__", f"unconditional {unparse(t)} = {unparse(st.value)[:30]}", f"{init.module.relpath}:{st.lineno}",
+                                         f"the constructor also runs when entities are loaded; the type is shared and already on file from the second {K.name} on, so "
+                                         "this assignment is a write: a file with two such objects cannot be opened read-only, and opening it writable rewrites the type")
+
+        walk(init.node.body, False)
     return res
 
 
